@@ -85,6 +85,7 @@ type World struct {
 	Outsiders []int  // universe indices that are not members
 	X, Y      []byte // certified id, some other id
 	P         []byte // id of the proposal that carries the certificate (may be nil)
+	SigBase   int    // first signature variant used for valid member entries
 }
 
 func (w *World) Addrs(m *Material) []string {
@@ -120,9 +121,9 @@ func (m *Material) Build(w *World, toks []Tok, freshRepeat bool, rng *rand.Rand)
 		switch t.K {
 		case KValid:
 			u := w.Set[t.I]
-			v := 0
+			v := w.SigBase % 3
 			if freshRepeat {
-				v = occ[t.I] % 3
+				v = (w.SigBase + occ[t.I]) % 3
 			}
 			occ[t.I]++
 			e = &bftpb.QuorumCertSign{Address: m.ids[u].Address, PublicKey: m.ids[u].PubJSON, Sign: m.Sig(u, w.X, v)}
